@@ -37,7 +37,7 @@ RULE = ("fault space = every executed statement (LINE event) of NP2Converter.* a
 ASSUMPTIONS = ["crash = Python-level interruption at a statement boundary, or os._exit of the process; loss of unsynced page cache is not modelled",
                "stale but valid files of an earlier run (e.g. an old lf.cbin beside a fresh lf.bin) are not a violation: the property asks for a complete, valid set",
                "after the original has been deleted by a verified run the history ends (there is no input left to hand to the converter)"]
-REQUIRED = {"foreign_compressed_pairs_in_place": 6, "reused_converter_runs": 12, "torn_header_histories": 2, "crash_points_fired": 40, "distinct_crash_sites": 30, "history_steps": 60, "remove_original_judged": 3, "idempotence_checked": 8,
+REQUIRED = {"sibling_forced_runs": 4, "foreign_compressed_pairs_in_place": 6, "reused_converter_runs": 12, "torn_header_histories": 2, "crash_points_fired": 40, "distinct_crash_sites": 30, "history_steps": 60, "remove_original_judged": 3, "idempotence_checked": 8,
             "completeness_checked": 20, "recoverability_checked": 100, "corruptions_injected": 12, "originals_with_inconsistent_metadata": 5, "compression_faults_injected": 12, "long_rebuilds": 1, "long_rebuilds_rate_above_nominal": 1}
 CASE_TIMEOUT = 60.0
 MAX_PROCS = 14
@@ -369,6 +369,9 @@ def gen_cases(seed, tier):
         kind, o1, steps = hist[i]
         cases.append({"cls": "history", "kind": kind, "opts": o1, "steps": list(steps), "cbin": bool(rng.integers(0, 2)), "change_opts": bool(rng.integers(0, 2)),
                       "seed": seed * 10000 + i, "_w": 1.5 * len(steps)})
+    # round 22: two recordings of one probe sharing the shank folders
+    for j in range(4 if tier == "quick" else 16):
+        cases.append({"cls": "sibling", "compress": j % 2, "optsB": [1, 2, 3, 0][j % 4] if j < 4 else int(rng.integers(0, 4)), "seed": seed * 10000 + 9500 + j, "_w": 4})
     # round 21: a foreign compressed pair of the original's own name already in the probe folder, every option set with compression, first and forced runs
     for j, (kind, o1, steps) in enumerate([("NP2.1", 2, ("run",)), ("NP2.1", 3, ("overwrite",)), ("NP2.1", 6, ("run", "overwrite")), ("NP2.1", 7, ("run", "rerun")),
                                            ("NP2.4", 7, ("run",)), ("NP2.4r", 2, ("overwrite", "rerun"))][: (6 if tier != "quick" else 6)]):
@@ -510,6 +513,49 @@ def run_case(case):
             close_conv(holder["conv"])
         res.sig = f"history-{kind}-{case['opts']}-{case['steps']}-{case['cbin']}-{case['change_opts']}-{bool(case.get('reuse'))}-{bool(case.get('foreign'))}"
         res.nontrivial = len(case["steps"]) >= 2
+        return res
+    if cls == "sibling":
+        # round 22: two recordings of one probe in one probe folder (run_g0_t0, run_g0_t1).  The first is converted with verification and deletion: its
+        # samples now live in the shank folders only.  The sibling is then converted into the SAME shank folders with a forced run (a plain run reports
+        # that the folders exist).  Nothing the second run does may cost the first recording a sample.
+        import neuropixel
+        root = d / "s"
+        recA = make_original(rng, root, "NP2.4", False)
+        optsA = {"post_check": True, "compress": bool(case["compress"]), "delete_original": True}
+        label = f"sibling recordings, first converted with {optsA}"
+        r = step(res, root, recA, optsA, False, label + " step 0")
+        res.count("history_steps")
+        res.check(r["status"] == 1 and r["deleted"] and r["exc"] is None, "sibling:first-run", f"{label}: first run: status {r['status']} deleted {r['deleted']} exc {r['exc']}")
+        res.count("recoverability_checked")
+        okA = res.check(recoverable(root, recA), "recoverable:lost", f"{label}: first recording not recoverable after its own verified run")
+        _, recB = np2.build(rng, d / "sib", kind="NP2.4", ns=int(rng.integers(1500, 2600)), content="random", gain=np2.GAIN_PAIRS[int(rng.integers(0, 4))])
+        (root / "probe00").mkdir(exist_ok=True)
+        for f in sorted((d / "sib" / "probe00").iterdir()):
+            shutil.move(str(f), str(root / "probe00" / f.name.replace("_t0", "_t1")))
+        pathB = root / "probe00" / (np2.NAME.replace("_t0", "_t1") + ".bin")
+        optsB = opts_of(int(case["optsB"]))
+        optsB["delete_original"] = False
+        label += f", sibling forced with {optsB}"
+        conv = None
+        try:
+            conv = neuropixel.NP2Converter(pathB, post_check=optsB["post_check"], delete_original=False, compress=optsB["compress"])
+            conv.init_params(nwindow=WINDOW)
+            st = conv.process(overwrite=True)
+            res.count("history_steps")
+            res.count("sibling_forced_runs")
+            res.check(st == 1, "sibling:forced-run:status", f"{label}: forced run of the sibling returned {st}")
+        except Exception as e:
+            res.exception("sibling:forced-run:exception", e, label)
+        finally:
+            if conv is not None:
+                close_conv(conv)
+        res.count("recoverability_checked")
+        if okA:
+            res.check(recoverable(root, recA), "recoverable:lost:sibling-forced-run", f"{label}: the FIRST recording (verified, original deleted, samples in the shank "
+                      f"folders only) is no longer recoverable byte for byte after the forced run of its sibling")
+        res.check(pathB.exists() and np.array_equal(np.fromfile(pathB, np.int16), recB.raw.ravel()), "sibling:original-touched", f"{label}: the sibling's own original changed")
+        res.sig = f"sibling-{case['compress']}-{case['optsB']}"
+        res.nontrivial = True
         return res
     if cls == "long-rebuild":
         # a verified, deleted original of realistic length (more than one 60000-sample verification / reassembly window, not a whole number of them) is
